@@ -507,7 +507,8 @@ def _value_origin(f: FunctionInfo, evs, idx: int) -> Optional[str]:
                     v = kw.get(v.id, call.args[k] if k < len(call.args) else None)
                     idx = evs.index(hit)
                     continue
-        trys = [n for n in ast.walk(f.node) if isinstance(n, ast.Try)]
+        trys = [n for n in ast.walk(f.node) if isinstance(n, ast.Try)
+                or (isinstance(n, ast.With) and any(isinstance(i.context_expr, ast.Call) and ast.unparse(i.context_expr.func).endswith("ExitStack") for i in n.items))]
         first_try = min((t.lineno for t in trys), default=10 ** 9)
         binds = [s for s in f.node.body if isinstance(s, (ast.Assign, ast.AnnAssign)) and s.lineno < first_try
                  and any(isinstance(x, ast.Name) and x.id == v.id for x in (s.targets if isinstance(s, ast.Assign) else [s.target]))]
